@@ -2,11 +2,11 @@ module verif
 
 go 1.23
 
-require github.com/Fantom-foundation/lachesis-base v0.0.0
-
 require (
-	github.com/ethereum/go-ethereum v1.9.22 // indirect
-	golang.org/x/crypto v0.0.0-20200622213623-75b288015ac9 // indirect
+	github.com/Fantom-foundation/lachesis-base v0.0.0
+	github.com/ethereum/go-ethereum v1.9.22
 )
+
+require golang.org/x/crypto v0.0.0-20200622213623-75b288015ac9 // indirect
 
 replace github.com/Fantom-foundation/lachesis-base => /repo
